@@ -4,6 +4,9 @@ package checks
 // order. Oracle: a slice-of-pairs reference model that shares no code with
 // cog. Search: (1) bounded-exhaustive enumeration of all operation sequences
 // up to a length bound, (2) rapid state machine for long random sequences.
+// Keys are not only identifiers: what a key contains matters to MarshalJSON /
+// UnmarshalJSON, so both searches use keys that JSON has to escape and JSON
+// texts that spell member names with escapes (c19_keys_test.go).
 
 import (
 	"bytes"
@@ -26,11 +29,18 @@ type omOp struct {
 	// Pairs: for set_many (inserted in order) and decode_new/decode_zero (the
 	// members of the JSON text, duplicates allowed)
 	Pairs []omKV `json:"pairs,omitempty"`
+	// Ws: white space style of the JSON text of decode_new/decode_zero
+	Ws int `json:"ws,omitempty"`
 }
 
+// Keys (omOp.K, omKV.K) are stored in the printable lossless spelling of
+// c19EncKey (see c19_keys_test.go); c19RawOps gives the operations as executed.
 type omKV struct {
 	K string `json:"k"`
 	V int    `json:"v"`
+	// Lit: for decode_new/decode_zero, the JSON string literal that spells the
+	// key in the text ("" = the plainest spelling)
+	Lit string `json:"lit,omitempty"`
 }
 
 func (o omOp) String() string {
@@ -123,9 +133,9 @@ func (m omModel) apply(op omOp) omModel {
 		return append(omModel{}, m...)
 	case "sort_tie_asc", "sort_tie_desc": // compares the first byte only: ties keep their order
 		out := append(omModel{}, m...)
-		less := func(a, b string) bool { return a[0] < b[0] }
+		less := func(a, b string) bool { return firstByte(a) < firstByte(b) }
 		if op.Kind == "sort_tie_desc" {
-			less = func(a, b string) bool { return a[0] > b[0] }
+			less = func(a, b string) bool { return firstByte(a) > firstByte(b) }
 		}
 		for i := 1; i < len(out); i++ {
 			for j := i; j > 0 && less(out[j].k, out[j-1].k); j-- {
@@ -142,11 +152,18 @@ func (m omModel) apply(op omOp) omModel {
 	case "decode_new", "decode_zero": // a fresh map decoded from a JSON text
 		out := omModel{}
 		for _, p := range op.Pairs {
-			out = out.apply(omOp{Kind: "set", K: p.K, V: p.V})
+			out = out.apply(omOp{Kind: "set", K: c19JSONKey(p.K), V: p.V})
 		}
 		return out
 	case "json_new", "json_zero":
-		return append(omModel{}, m...)
+		// the members of the text in order, read like successive Set calls. A
+		// key is carried by the text as c19JSONKey(key): itself, unless it is
+		// not UTF-8 (two such keys may then fall together).
+		out := omModel{}
+		for _, p := range m {
+			out = out.apply(omOp{Kind: "set", K: c19JSONKey(p.k), V: p.v})
+		}
+		return out
 	case "from_map":
 		out := append(omModel{}, m...)
 		sort.Slice(out, func(i, j int) bool { return out[i].k < out[j].k })
@@ -178,31 +195,23 @@ func omApply(m omImpl, op omOp) (omImpl, error) {
 	case "sort_const":
 		m.Sort(func(i, j string) bool { return false })
 	case "sort_tie_asc":
-		m.Sort(func(i, j string) bool { return i[0] < j[0] })
+		m.Sort(func(i, j string) bool { return firstByte(i) < firstByte(j) })
 	case "sort_tie_desc":
-		m.Sort(func(i, j string) bool { return i[0] > j[0] })
+		m.Sort(func(i, j string) bool { return firstByte(i) > firstByte(j) })
 	case "set_many":
 		for _, p := range op.Pairs {
 			m.Set(p.K, p.V)
 		}
 	case "decode_new", "decode_zero":
-		var sb strings.Builder
-		sb.WriteString("{")
-		for i, p := range op.Pairs {
-			if i > 0 {
-				sb.WriteString(", ")
-			}
-			fmt.Fprintf(&sb, "%q: %d", p.K, p.V)
-		}
-		sb.WriteString("}")
+		text := c19DecodeText(op)
 		var dst omImpl
 		if op.Kind == "decode_new" {
 			dst = orderedmap.New[string, int]()
 		} else {
 			dst = &orderedmap.Map[string, int]{}
 		}
-		if err := json.Unmarshal([]byte(sb.String()), dst); err != nil {
-			return m, fmt.Errorf("UnmarshalJSON(%s): %w", sb.String(), err)
+		if err := json.Unmarshal([]byte(text), dst); err != nil {
+			return m, fmt.Errorf("UnmarshalJSON(%q): %w", text, err)
 		}
 		return dst, nil
 	case "json_new", "json_zero":
@@ -217,7 +226,7 @@ func omApply(m omImpl, op omOp) (omImpl, error) {
 			dst = &orderedmap.Map[string, int]{}
 		}
 		if err := json.Unmarshal(raw, dst); err != nil {
-			return m, fmt.Errorf("UnmarshalJSON(%s): %w", raw, err)
+			return m, fmt.Errorf("UnmarshalJSON(%q): %w", raw, err)
 		}
 		return dst, nil
 	case "from_map":
@@ -284,14 +293,20 @@ func fmtPairs(ps []pair) string {
 		if i > 0 {
 			sb.WriteString(" ")
 		}
-		fmt.Fprintf(&sb, "%s=%d", p.k, p.v)
+		if c19EncKey(p.k) == p.k && p.k != "" && !strings.ContainsAny(p.k, " =[]\"") {
+			fmt.Fprintf(&sb, "%s=%d", p.k, p.v)
+		} else {
+			fmt.Fprintf(&sb, "%q=%d", p.k, p.v)
+		}
 	}
 	sb.WriteString("]")
 	return sb.String()
 }
 
 // omObserve compares every observation of the implementation with the model.
-func omObserve(m omImpl, model omModel, alphabet []string) []vlib.Violation {
+// viaIface: also encode through json.Marshal(map) (implied by the validity of
+// what MarshalJSON returns; only done in the random search).
+func omObserve(m omImpl, model omModel, alphabet []string, viaIface bool) []vlib.Violation {
 	var vs []vlib.Violation
 	bad := func(obs string, format string, args ...any) {
 		vs = append(vs, vlib.V("observation:"+obs, format, args...))
@@ -334,15 +349,32 @@ func omObserve(m omImpl, model omModel, alphabet []string) []vlib.Violation {
 			}
 		}
 	}
+	// What MarshalJSON writes is a JSON text (by the grammar, whatever the
+	// keys are) whose members, read in order, are the model's pairs; a key is
+	// carried as c19JSONKey(key).
+	wantJSON := make([]pair, len(model))
+	for i, p := range model {
+		wantJSON[i] = pair{c19JSONKey(p.k), p.v}
+	}
 	raw, err := m.MarshalJSON()
 	if err != nil {
-		bad("marshal", "MarshalJSON error: %v", err)
+		bad("marshal", "MarshalJSON error: %v (model %s)", err, fmtPairs(model))
+	} else if !json.Valid(raw) {
+		bad("marshal", "MarshalJSON output %q is not valid JSON (model %s)", raw, fmtPairs(model))
 	} else {
 		ps, perr := orderedPairsFromJSON(raw)
 		if perr != nil {
 			bad("marshal", "MarshalJSON output %q is not a JSON object: %v", raw, perr)
-		} else if !pairsEq(ps, model) {
-			bad("marshal", "MarshalJSON gives %s, model %s", fmtPairs(ps), fmtPairs(model))
+		} else if !pairsEq(ps, wantJSON) {
+			bad("marshal", "MarshalJSON output %q reads as %s, model %s", raw, fmtPairs(ps), fmtPairs(wantJSON))
+		}
+		// the same through the json.Marshaler interface
+		if !viaIface {
+			// nothing more
+		} else if out, err := json.Marshal(m); err != nil {
+			bad("marshal", "json.Marshal(map) error: %v (model %s)", err, fmtPairs(model))
+		} else if ps, perr := orderedPairsFromJSON(out); perr != nil || !pairsEq(ps, wantJSON) {
+			bad("marshal", "json.Marshal(map) gives %q, which reads as %s (%v), model %s", out, fmtPairs(ps), perr, fmtPairs(wantJSON))
 		}
 	}
 	// Equal against an independently built map with the model's content.
@@ -406,7 +438,11 @@ func derivesNewMap(kind string) bool {
 // the exhaustive enumeration, where every prefix is observed at its own node).
 func c19Exec(c c19Case, alphabet []string, observeAll bool) []vlib.Violation {
 	st := c19State{cur: orderedmap.New[string, int](), model: omModel{}}
-	for i, op := range c.Ops {
+	rawOps := c19RawOps(c.Ops)
+	if err := c19CheckLits(rawOps); err != nil {
+		panic("C19: malformed case: " + err.Error())
+	}
+	for i, op := range rawOps {
 		if op.Kind == "swap" {
 			if n := len(st.shadows); n > 0 {
 				sh := st.shadows[n-1]
@@ -418,10 +454,10 @@ func c19Exec(c c19Case, alphabet []string, observeAll bool) []vlib.Violation {
 			var next omImpl
 			sig, msg, panicked := vlib.Guard(func() { next, err = omApply(st.cur, op) })
 			if panicked {
-				return []vlib.Violation{vlib.V("panic:"+op.Kind+":len"+lenClass(len(st.model))+":"+sig, "step %d %s on %s panicked: %s (ops %v)", i, op, fmtPairs(st.model), msg, c.Ops[:i+1])}
+				return []vlib.Violation{vlib.V("panic:"+op.Kind+":len"+lenClass(len(st.model))+":"+sig, "step %d %s on %s panicked: %s (ops %v)", i, c.Ops[i], fmtPairs(st.model), msg, c.Ops[:i+1])}
 			}
 			if err != nil {
-				return []vlib.Violation{vlib.V("error:"+op.Kind, "step %d %s on %s: %v (ops %v)", i, op, fmtPairs(st.model), err, c.Ops[:i+1])}
+				return []vlib.Violation{vlib.V("error:"+op.Kind, "step %d %s on %s: %v (ops %v)", i, c.Ops[i], fmtPairs(st.model), err, c.Ops[:i+1])}
 			}
 			if derivesNewMap(op.Kind) {
 				st.shadows = append(st.shadows, c19Shadow{st.cur, st.model})
@@ -437,9 +473,9 @@ func c19Exec(c c19Case, alphabet []string, observeAll bool) []vlib.Violation {
 		}
 		var vs []vlib.Violation
 		sig, msg, panicked := vlib.Guard(func() {
-			vs = omObserve(st.cur, st.model, alphabet)
+			vs = omObserve(st.cur, st.model, alphabet, observeAll)
 			for _, sh := range st.shadows {
-				for _, v := range omObserve(sh.m, sh.model, alphabet) {
+				for _, v := range omObserve(sh.m, sh.model, alphabet, observeAll) {
 					v.Sig = "shadow:" + v.Sig
 					v.Msg = "a map this one was derived from (or that was derived from it) changed: " + v.Msg
 					vs = append(vs, v)
@@ -447,15 +483,26 @@ func c19Exec(c c19Case, alphabet []string, observeAll bool) []vlib.Violation {
 			}
 		})
 		if panicked {
-			return []vlib.Violation{vlib.V("panic:observe:"+sig, "observing after step %d %s panicked: %s (ops %v)", i, op, msg, c.Ops[:i+1])}
+			return []vlib.Violation{vlib.V("panic:observe:"+sig, "observing after step %d %s panicked: %s (ops %v)", i, c.Ops[i], msg, c.Ops[:i+1])}
 		}
 		if len(vs) > 0 {
 			for j := range vs {
 				vs[j].Sig = vs[j].Sig + ":after:" + op.Kind
-				vs[j].Msg = fmt.Sprintf("after step %d %s (ops %v): %s", i, op, c.Ops[:i+1], vs[j].Msg)
+				vs[j].Msg = fmt.Sprintf("after step %d %s (ops %v): %s", i, c.Ops[i], c.Ops[:i+1], vs[j].Msg)
 			}
 			return vs
 		}
+	}
+	if observeAll && len(st.model) > 0 {
+		var vs []vlib.Violation
+		sig, msg, panicked := vlib.Guard(func() { vs = c19ObserveTwin(st.model) })
+		if panicked {
+			return []vlib.Violation{vlib.V("panic:observe_twin:"+sig, "encoding / decoding a map[string]string with the keys of %s panicked: %s (ops %v)", fmtPairs(st.model), msg, c.Ops)}
+		}
+		for j := range vs {
+			vs[j].Msg = fmt.Sprintf("after ops %v: %s", c.Ops, vs[j].Msg)
+		}
+		return vs
 	}
 	return nil
 }
@@ -470,8 +517,31 @@ var c19RandomAlphabet = func() []string {
 	return out
 }()
 
+// c19Check observes Has/Get for the fixed alphabet and for every key the case
+// mentions (as stored and as a JSON text carries it).
 func c19Check(c c19Case) []vlib.Violation {
-	return c19Exec(c, c19RandomAlphabet, true)
+	alphabet := append([]string{}, c19RandomAlphabet...)
+	seen := map[string]bool{}
+	for _, k := range alphabet {
+		seen[k] = true
+	}
+	add := func(k string) {
+		for _, k := range []string{k, c19JSONKey(k)} {
+			if !seen[k] {
+				seen[k] = true
+				alphabet = append(alphabet, k)
+			}
+		}
+	}
+	for _, op := range c19RawOps(c.Ops) {
+		if op.Kind == "set" || op.Kind == "remove" {
+			add(op.K)
+		}
+		for _, p := range op.Pairs {
+			add(p.K)
+		}
+	}
+	return c19Exec(c, alphabet, true)
 }
 
 func lenClass(n int) string {
@@ -511,25 +581,31 @@ func c19Nontrivial(c c19Case) bool {
 	return interesting
 }
 
-// exhaustive alphabet: keys a, ab, b (a and ab tie under the first-byte
-// comparator)
-var c19ExhaustiveKeys = []string{"a", "ab", "b"}
+// exhaustive alphabet: keys a, a<BEL>"\<DEL><U+E0001>, b. The second key ties
+// with a under the first-byte comparator and sorts between a and b; it holds a
+// control character that has no two-character escape, the two characters JSON
+// must escape, DEL, and a rune outside the BMP that is not printable.
+const c19WeirdKey = "a\x07\"\\\x7f\U000e0001"
+
+var c19ExhaustiveKeys = []string{"a", c19WeirdKey, "b"}
 
 var c19ExhaustiveOps = func() []omOp {
 	var ops []omOp
 	for _, k := range c19ExhaustiveKeys {
 		for _, v := range []int{0, 1} {
-			ops = append(ops, omOp{Kind: "set", K: k, V: v})
+			ops = append(ops, omOp{Kind: "set", K: c19EncKey(k), V: v})
 		}
 	}
 	for _, k := range c19ExhaustiveKeys {
-		ops = append(ops, omOp{Kind: "remove", K: k})
+		ops = append(ops, omOp{Kind: "remove", K: c19EncKey(k)})
 	}
 	for _, k := range []string{"filter_v1", "filter_not_first_key", "map_flip", "sort_asc", "sort_desc", "sort_const", "sort_tie_desc", "json_new", "json_zero", "from_map", "swap"} {
 		ops = append(ops, omOp{Kind: k})
 	}
-	ops = append(ops, omOp{Kind: "decode_new", Pairs: []omKV{{"b", 1}, {"a", 0}, {"b", 0}}})
-	ops = append(ops, omOp{Kind: "decode_zero", Pairs: []omKV{{"ab", 1}, {"ab", 0}, {"a", 1}}})
+	w := c19EncKey(c19WeirdKey)
+	// the repeated members are spelled differently
+	ops = append(ops, omOp{Kind: "decode_new", Pairs: []omKV{{K: "b", V: 1}, {K: "a", V: 0}, {K: "b", V: 0, Lit: `"\u0062"`}}})
+	ops = append(ops, omOp{Kind: "decode_zero", Ws: 2, Pairs: []omKV{{K: w, V: 1}, {K: w, V: 0, Lit: `"a\u0007\u0022\\\u007F\uDB40\uDC01"`}, {K: "a", V: 1}}})
 	return ops
 }()
 
@@ -537,12 +613,14 @@ func TestC19(t *testing.T) {
 	run := vlib.Begin(t, "C19")
 	defer run.Finish(t)
 	run.Describe(
-		"(1) every sequence over 22 concrete operations (set a|ab|b to 0|1, remove a|ab|b, 2 filters, map, 4 sorts incl. one whose comparator has ties, JSON round-trip into New() and into the zero value, FromMap, decoding two JSON texts with repeated members, swap to the map the current one was derived from) up to the length bound; after the last step of every sequence the complete API of the current map AND of the maps it was derived from is compared with the model (Len, Has/Get for every key, Iterate, Values, At(i) in range, MarshalJSON order, Equal, internal order/records bijection); (2) rapid sequences up to length 60 over a 24-key alphabet with bulk inserts (so sorts see more than 12 keys with ties). Non-trivial: the sequence overwrites a key or removes/derives/sorts/encodes after at least two insertions; distinct by the operation sequence.",
+		"(1) every sequence over 22 concrete operations (set k to 0|1 and remove k for the three keys a, b and a<BEL>\"\\<DEL><U+E0001> -- a key holding a control character without two-character escape, the two characters JSON must escape, DEL and a non-printable rune outside the BMP --, 2 filters, map, 4 sorts incl. one whose comparator has ties, JSON round-trip into New() and into the zero value, FromMap, decoding two JSON texts with repeated members that are spelled differently (\\uXXXX, surrogate pair, white space around every token), swap to the map the current one was derived from) up to the length bound; after the last step of every sequence the complete API of the current map AND of the maps it was derived from is compared with the model (Len, Has/Get for every key, Iterate, Values, At(i) in range, MarshalJSON, Equal, internal order/records bijection). MarshalJSON: the output is valid JSON by the grammar (json.Valid), its members read in order with an independent token reader are the model's pairs. (2) rapid sequences up to length 60 over the 24 plain keys plus, per sequence, a pool of up to 6 generated hostile keys (prefix a|b|c|d|none + up to 3 atoms: a byte of each class C0 control / DEL / not UTF-8 / ASCII, a rune from a list of JSON, UTF-8, UTF-16 and printability borders, any rune, text that looks like an escape of some notation; the empty key), with bulk inserts (so sorts see more than 12 keys with ties); the JSON texts that are decoded spell each member name rune by rune as is / two-character escape / \\uXXXX upper or lower case / surrogate pair, in three white space styles; Has/Get are observed for the plain keys and every key the sequence mentions; json.Marshal(map) must succeed and read as the model's pairs too; at the end of a sequence the same keys are also put in a map[string]string whose values are those keys, which must encode to valid JSON reading as these pairs and decode back to them. Non-trivial: the sequence overwrites a key or removes/derives/sorts/encodes after at least two insertions; distinct by the operation sequence.",
 		"At(i) is only called for 0<=i<Len (out-of-range index is a caller error)",
-		"UnmarshalJSON is only exercised on a New() map or the zero value (decoding into a populated map is outside the constructor contract); a JSON text with a repeated member is decoded like successive Set calls",
+		"UnmarshalJSON is only exercised on a New() map or the zero value (decoding into a populated map is outside the constructor contract), and only on valid UTF-8 JSON texts; a JSON text with a repeated member is decoded like successive Set calls",
 		"Set on a zero-value (non constructed) map is not generated",
 		"Equal is only required between maps holding at least one pair",
 		"a map derived with Filter/Map/FromMap/decoding is independent of its source: later operations on either must not show through the other",
+		"which escapes MarshalJSON chooses is free: only what the text reads as is compared",
+		"a key that is not UTF-8 cannot be carried by a JSON text: it is expected to be written as encoding/json writes it for a plain map[string]V, every byte outside a UTF-8 sequence as U+FFFD; keys that fall together that way are read back like successive Set calls. Every other operation treats such keys as the distinct byte strings they are",
 	)
 	if vlib.RunReplay(t, run, c19Check) {
 		return
@@ -593,7 +671,7 @@ func TestC19(t *testing.T) {
 			}
 			nm := model
 			if op.Kind != "swap" {
-				nm = model.apply(op)
+				nm = model.apply(c19RawOp(op))
 			}
 			rec(seq, nm)
 		}
@@ -607,12 +685,35 @@ func TestC19(t *testing.T) {
 	}
 
 	// (2) random long sequences
-	keys := rapid.SampledFrom(c19RandomAlphabet)
+	// keys: the 24 plain keys, plus a pool of up to 6 hostile keys drawn per
+	// sequence (so that they are overwritten, removed and decoded again, not
+	// only inserted). Stored in the case in their printable spelling.
+	hostile := c19HostileKeyGen()
 	kinds := rapid.SampledFrom([]string{"set", "set", "set", "set_many", "set_many", "remove", "remove", "filter_v1", "filter_not_first_key", "map_flip", "sort_asc", "sort_desc", "sort_const", "sort_tie_asc", "sort_tie_desc", "json_new", "json_zero", "from_map", "swap", "decode_new", "decode_zero"})
-	pairGen := rapid.Custom(func(rt *rapid.T) omKV {
-		return omKV{K: keys.Draw(rt, "k"), V: rapid.IntRange(0, 3).Draw(rt, "v")}
-	})
 	rapid.Check(t, func(rt *rapid.T) {
+		pool := rapid.SliceOfN(hostile, 0, 6).Draw(rt, "hostile_keys")
+		keys := rapid.Custom(func(rt *rapid.T) string {
+			i := rapid.IntRange(0, len(c19RandomAlphabet)+3*len(pool)-1).Draw(rt, "key")
+			if i < len(c19RandomAlphabet) {
+				return c19RandomAlphabet[i]
+			}
+			return c19EncKey(pool[(i-len(c19RandomAlphabet))%len(pool)])
+		})
+		pairGen := rapid.Custom(func(rt *rapid.T) omKV {
+			return omKV{K: keys.Draw(rt, "k"), V: rapid.IntRange(0, 3).Draw(rt, "v")}
+		})
+		// a member of a JSON text: half of the time the key is spelled with
+		// escapes chosen rune by rune
+		memberGen := rapid.Custom(func(rt *rapid.T) omKV {
+			kv := pairGen.Draw(rt, "member")
+			if rapid.Bool().Draw(rt, "spelled") {
+				kv.Lit = c19DrawLit(rt, c19DecKey(kv.K))
+				if kv.Lit == c19CanonLit(c19DecKey(kv.K)) {
+					kv.Lit = ""
+				}
+			}
+			return kv
+		})
 		n := rapid.IntRange(1, 60).Draw(rt, "n")
 		c := c19Case{}
 		for i := 0; i < n; i++ {
@@ -626,7 +727,8 @@ func TestC19(t *testing.T) {
 			case "set_many":
 				op.Pairs = rapid.SliceOfN(pairGen, 4, 24).Draw(rt, "pairs")
 			case "decode_new", "decode_zero":
-				op.Pairs = rapid.SliceOfN(pairGen, 0, 8).Draw(rt, "pairs")
+				op.Pairs = rapid.SliceOfN(memberGen, 0, 8).Draw(rt, "pairs")
+				op.Ws = rapid.IntRange(0, 2).Draw(rt, "ws")
 			}
 			c.Ops = append(c.Ops, op)
 		}
@@ -647,11 +749,13 @@ func TestC19(t *testing.T) {
 
 // c19Labels classifies a sequence by replaying the model.
 func c19Labels(c c19Case) []string {
+	c = c19Case{Ops: c19RawOps(c.Ops)}
 	var out []string
 	model := omModel{}
 	var shadow omModel
 	hasShadow := false
 	seen := map[string]bool{}
+	classified := map[string]bool{}
 	add := func(l string) {
 		if !seen[l] {
 			seen[l] = true
@@ -669,7 +773,7 @@ func c19Labels(c c19Case) []string {
 		case strings.HasPrefix(op.Kind, "sort_tie") && len(model) > 12:
 			firsts := map[byte]int{}
 			for _, p := range model {
-				firsts[p.k[0]]++
+				firsts[firstByte(p.k)]++
 			}
 			for _, n := range firsts {
 				if n > 1 {
@@ -679,10 +783,21 @@ func c19Labels(c c19Case) []string {
 		case strings.HasPrefix(op.Kind, "decode"):
 			ks := map[string]bool{}
 			for _, p := range op.Pairs {
-				if ks[p.K] {
+				if ks[c19JSONKey(p.K)] {
 					add("decode_repeated_member")
 				}
-				ks[p.K] = true
+				ks[c19JSONKey(p.K)] = true
+				if p.Lit != "" {
+					add("decode_member_spelled_with_escapes")
+				}
+			}
+		case strings.HasPrefix(op.Kind, "json_"):
+			ks := map[string]bool{}
+			for _, p := range model {
+				if ks[c19JSONKey(p.k)] {
+					add("json_roundtrip_keys_fall_together")
+				}
+				ks[c19JSONKey(p.k)] = true
 			}
 		case op.Kind == "remove" && model.find(op.K) < 0:
 			add("remove_absent")
@@ -696,6 +811,16 @@ func c19Labels(c c19Case) []string {
 			add("mutate_after_derive")
 		}
 		model = model.apply(op)
+		// every state is JSON-encoded by the observation
+		for _, p := range model {
+			if classified[p.k] {
+				continue
+			}
+			classified[p.k] = true
+			for _, l := range c19KeyClasses(p.k) {
+				add("encoded_" + l)
+			}
+		}
 	}
 	return out
 }
